@@ -772,6 +772,105 @@ var trustedRules = []trustedRule{
 			})
 			return okAll && n >= 1
 		}},
+	{"hook called from a named function that is only invoked where the hook was tested non-nil",
+		"every call, defer or go of the (unexported) function in the module is dominated by the non-nil test of the same function field",
+		func(p *idxProver, ob *idxOb) bool {
+			if ob.kind != "nilcall" || ob.fn.Parent() != nil || ob.fn.Object() == nil || ob.fn.Object().Exported() {
+				return false
+			}
+			c := ob.in.(*ssa.Call)
+			acc := unwrapAddr(c.Call.Value)
+			lf := acc.lastField()
+			// the hook is a field of one of the function's own parameters (the same object the caller tested)
+			prm, isPrm := acc.Base.(*ssa.Parameter)
+			if !isPrm || len(acc.Fields) != 1 || acc.Elem {
+				return false
+			}
+			pk := -1
+			for i, q := range ob.fn.Params {
+				if q == prm {
+					pk = i
+				}
+			}
+			if pk < 0 {
+				return false
+			}
+			okAll, n := true, 0
+			for _, g := range p.w.Funcs {
+				eachInstr(g, func(in ssa.Instruction) {
+					ci, isCall := in.(ssa.CallInstruction)
+					if isCall && ci.Common().StaticCallee() == ob.fn {
+						// the tested object is the one handed to the function
+						args := ci.Common().Args
+						if pk >= len(args) {
+							okAll = false
+							return
+						}
+						want := canon(args[pk])
+						n++
+						if !factHolds(in, func(cond ssa.Value, truth bool) bool {
+							b, okb := cond.(*ssa.BinOp)
+							if !okb {
+								return false
+							}
+							var ld, other ssa.Value
+							if isLoadOfField(b.X, lf) {
+								ld, other = b.X, b.Y
+							} else if isLoadOfField(b.Y, lf) {
+								ld, other = b.Y, b.X
+							} else {
+								return false
+							}
+							if canon(unwrapAddr(ld).Base) != want && canon(ld.(*ssa.UnOp).X.(*ssa.FieldAddr).X) != want {
+								return false
+							}
+							return isNilConst(other) && ((b.Op == token.NEQ && truth) || (b.Op == token.EQL && !truth))
+						}) {
+							okAll = false
+						}
+						return
+					}
+					if !isCall || ci.Common().StaticCallee() != ob.fn {
+						// the function used as a value escapes the analysis
+						if mc, isMC := in.(*ssa.MakeClosure); isMC && mc.Fn == ob.fn {
+							okAll = false
+						}
+						return
+					}
+					n++
+					if !factHolds(in, func(cond ssa.Value, truth bool) bool {
+						b, okb := cond.(*ssa.BinOp)
+						if !okb {
+							return false
+						}
+						var other ssa.Value
+						if isLoadOfField(b.X, lf) {
+							other = b.Y
+						} else if isLoadOfField(b.Y, lf) {
+							other = b.X
+						} else {
+							return false
+						}
+						return isNilConst(other) && ((b.Op == token.NEQ && truth) || (b.Op == token.EQL && !truth))
+					}) {
+						okAll = false
+					}
+				})
+			}
+			// the function must not be referenced as a value anywhere (method value, function value)
+			for _, g := range p.w.Funcs {
+				eachInstr(g, func(in ssa.Instruction) {
+					for _, op := range in.Operands(nil) {
+						if op != nil && *op == ssa.Value(ob.fn) {
+							if ci, isCall := in.(ssa.CallInstruction); !isCall || ci.Common().Value != ssa.Value(ob.fn) {
+								okAll = false
+							}
+						}
+					}
+				})
+			}
+			return okAll && n >= 1
+		}},
 }
 
 func typeShort(t types.Type) string {
